@@ -41,7 +41,7 @@ theorem step_sat (oc : Bool) (b : Buf) (op : Op) (h : b.WInv) :
     · rename_i h0
       have hpos : 0 < b.free := by simp [Buf.free]; omega
       cases resp with
-      | panic => simp [Sat_C04, hpos, sameIdx]
+      | panic => simp [Sat_C04, hpos, Obs.len, Buf.len, Buf.obs, h.1, h.2.1]
       | err k => simp [Sat_C04]
       | data bytes scr => simp [Sat_C04]
   | readBytes n =>
